@@ -275,6 +275,29 @@ func cmdDriveRequest(args []string) error {
 			}
 		}
 	}
+	// host names at and around the longest a domain name can be (253), each followed by something
+	for _, total := range []int{250, 252, 253, 254, 255, 300} {
+		tail := ".long-name.example.org"
+		rest := total - len(tail)
+		var labels []string
+		for rest > 0 {
+			n := min(rest, 60)
+			if rest-n == 1 {
+				n-- // no one-character remainder in front of a dot
+			}
+			labels = append(labels, strings.Repeat("a", n))
+			rest -= n + 1
+		}
+		h := strings.Join(labels, ".") + tail
+		h = h[len(h)-total:]
+		if h[0] == '.' {
+			h = "b" + h[1:]
+		}
+		for _, t := range []string{"/x.js", ":8080/x", "?q=1", "", "/"} {
+			emit("url", "https://"+h+t, "http://c.example.org/", h)
+		}
+		emit("host", "", "", h)
+	}
 	// a few mixed-case and long URLs
 	for i := 0; i < 200; i++ {
 		h := []string{"Example.ORG", "A.b.Example.Co.UK", "LOCALHOST", "sub.Example.com"}[rnd.Intn(4)]
